@@ -686,6 +686,7 @@ package redis
 //@   requires f != nil
 //@   modifies buflen, cpslen
 //@   ensures @fresh-copy result1 == nil ==> len(result0) == 0 || fresh(result0)
+//@   ensures @only-a-value-carrying-the-whole-header-is-inflated result1 == nil ==> len(src) >= 6 && src[0] == 40 && src[1] == 80 && src[2] == 36
 
 // ---- encoder (C10 C11 C01) ---------------------------------------------------------------------------
 
@@ -853,6 +854,7 @@ package redis
 //@   alsoprop C11 : no-panic
 //@   requires c != nil && c.done != nil && !closed(c.done)
 //@   callpre drainRequests @the-final-drain-runs-after-the-writer-has-finished waitedfor(writeDone)
+//@   alsoprop C01 : the-final-drain-runs-after-the-writer-has-finished
 //@   callpre (net.Conn).Close @the-connection-is-closed-as-soon-as-the-reader-has-finished-so-a-writer-blocked-in-the-socket-is-released arg0 == c.conn && !waitedfor(writeDone)
 //@   flag model-once
 //@   assume @before:Do c.quit != nil && oncedone(c.quitOnce) == closed(c.quit)
@@ -1600,7 +1602,7 @@ package redis
 // non-null key list (a null list would go out as *-1) ------------------------------------------------------------
 
 //@ func init
-//@   prop C18 C01 C14
+//@   prop C18 C01 C14 C03
 //@   modifies all
 //@   assume itoaOffset[0] >= 0 && len(itoaBuffer) >= 0
 
